@@ -244,8 +244,10 @@ def run_cbmc(gb, unwind=None, unwindset=None, flags=(), timeout=300, trace=False
     elif checks == "full":
         # (no --conversion-check: a negative value converted to an unsigned type is defined behaviour,
         # and the library does it on purpose, e.g. NA = -1 stored in unsigned table fields)
-        cmd += ["--signed-overflow-check", "--undefined-shift-check", "--pointer-overflow-check",
-                "--div-by-zero-check"]
+        # (no --pointer-overflow-check either: it flags the mere formation of pointers, never reproduces
+        # under a sanitizer, and fires on in-bounds symbolic offsets; dereferences are covered by the
+        # default pointer and bounds checks)
+        cmd += ["--signed-overflow-check", "--undefined-shift-check", "--div-by-zero-check"]
     elif checks == "default":
         pass
     if unwindset:
